@@ -22,6 +22,7 @@ _docs: dict[str, bytes] = {}
 _names: list[str] = []
 _by_ext: dict[str, list[str]] = {}
 _base_cpu: dict[str, float] = {}
+_ole_obj_streams: dict[str, list[int]] = {}
 EXT_FAMILIES = ["docx", "docm", "pptx", "pptm", "xlsx", "xlsm", "doc", "ppt", "xls", "rtf", "odt", "odp", "ods", "odg", "odf", "msg", "mbox", "eml",
                 "csv", "json", "txt", "tsv", "md", "pdf", "html", "epub", "mhtml", "zip", "tar", "tgz", "tbz2", "txz", "7z"]
 ALIASES = {"html": ["htm"], "mhtml": ["mht"], "doc": ["dot"], "docx": ["dotx"], "docm": ["dotm"], "xls": ["xlt"], "xlsx": ["xltx"], "xlsm": ["xltm"],
@@ -46,6 +47,10 @@ def warm(measure_cpu: bool = True):
     for n in _names:
         _by_ext.setdefault(ext_of(n), []).append(n)
     import sharepoint2text.cli  # noqa
+    _ole_obj_streams.clear()
+    for n in _names:
+        if _docs[n][:8] == b"\xd0\xcf\x11\xe0\xa1\xb1\x1a\xe1":
+            _ole_obj_streams[n] = _ole_streams_with_objects(n)
     if measure_cpu:
         for n in _names:
             t0 = time.process_time()
@@ -55,6 +60,35 @@ def warm(measure_cpu: bool = True):
             except Exception:
                 pass
             _base_cpu[n] = time.process_time() - t0
+
+
+def _ole_streams_with_objects(name) -> list[int]:
+    """ordinals k of the openstream() calls (fault-free extraction) whose stream holds embedded objects: where a stream fault meets in-flight state"""
+    import olefile
+    real = olefile.OleFileIO.openstream
+    hits, n = [], [0]
+
+    def openstream(self, filename):
+        st = real(self, filename)
+        n[0] += 1
+        try:
+            data = st.read()
+            st.seek(0)
+            if blockdev.object_offsets(data):
+                hits.append(n[0])
+        except Exception:
+            pass
+        return st
+
+    olefile.OleFileIO.openstream = openstream
+    try:
+        for r in corpus.extractor_for(name)(io.BytesIO(_docs[name]), None):
+            pass
+    except Exception:
+        pass
+    finally:
+        olefile.OleFileIO.openstream = real
+    return hits
 
 
 def docs():
@@ -92,8 +126,13 @@ def gen_case(rng: random.Random, tier: str, *, fault_free_p=0.1, s2_bias=0.5, en
     ole = None
     if data[:8] == b"\xd0\xcf\x11\xe0\xa1\xb1\x1a\xe1" and ops and rng.random() < 0.4:
         ed = rng.choice([["trunc", rng.randrange(1 << 30)], ["flip", [[rng.randrange(1 << 30), rng.randrange(8)] for _ in range(rng.choice([1, 3, 16]))]],
-                         ["u16", rng.randrange(1 << 30), rng.choice(blockdev.BIG)], ["u32", rng.randrange(1 << 30), rng.choice(blockdev.BIG)], ["empty"]])
+                         ["u16", rng.randrange(1 << 30), rng.choice(blockdev.BIG)], ["u32", rng.randrange(1 << 30), rng.choice(blockdev.BIG)], ["empty"],
+                         ["zerotail", rng.randrange(1 << 30), rng.choice([-1, 2, 4, 6, 20, 100, 600])]])
         ole = [rng.randrange(1, 7), ed]
+        if _ole_obj_streams.get(name) and rng.random() < 0.5:
+            # aim at a stream that carries embedded objects (pictures), with the fault that leaves an object half there
+            ole = [rng.choice(_ole_obj_streams[name]), rng.choice([ed, ["zerotail", rng.randrange(1 << 30), rng.choice([2, 4, 6, 20, 100, 600])],
+                                                                    ["trunc", rng.randrange(1 << 30)]])]
         ops = []  # the container shell stays valid: only the stream read is faulted
     case_style = rng.choice(["lower", "lower", "upper", "mixed"])
     route_cs = {"lower": route, "upper": route.upper(), "mixed": "".join(c.upper() if i % 2 else c for i, c in enumerate(route))}[case_style]
